@@ -49,6 +49,7 @@ P_MAX = 100.0e6         # Pa
 TC_K = 273.15
 TCRIT97 = 647.096 - TC_K          # degC (373.946), IAPWS-97 critical temperature
 PCRIT97 = 22.064e6                # Pa
+DCRIT97 = 322.0                   # kg/m3, IAPWS-97 critical density (the viscosity correlation is reduced by it)
 TCRIT67_DOC = 374.15              # degC as printed in doc/source/t2thermo.rst
 TCRIT67_FLT = 647.3 - TC_K        # the same number as the formulation computes it (Tc1 - 273.15)
 TCRIT67_LO = min(TCRIT67_DOC, TCRIT67_FLT)
@@ -399,49 +400,35 @@ def in_tcrit67_band(t):
 
 
 def cowat67_range(t, p, psat):
-    """IFC-67 region 1 (doc/source/t2thermo.rst: 'thermodynamic region 1 of the IFC-67 specification'):
-    0.01..350 degC, saturation pressure..100 MPa.  Returns set of acceptable answers to 'inside?'."""
-    if not (T_MIN <= t <= T_13) or p > P_MAX:
-        return set([False])
-    if p > psat:
-        return set([True])
-    if p < psat:
-        return set([False])
-    return set([True, False])
-
-
-def _side(p, curve):
-    if p < curve:
-        return set([True])
-    if p > curve:
-        return set([False])
-    return set([True, False])
+    """Operating range of t2thermo.cowat (IFC-67 region 1, closed): 0.01 <= t <= 350 degC and
+    sat(t) <= p <= 100 MPa, where sat(t) is the t2thermo function's own value at that t - bit for bit the
+    number the routine compares with, so the answer exactly on the curve is determined (inside).
+    Returns the set of acceptable answers to 'inside?'."""
+    return set([bool(T_MIN <= t <= T_13 and psat <= p <= P_MAX)])
 
 
 def supst67_range(t, p, psat, pb23):
-    """Operating range of t2thermo.supst (ruling of the framework owner: the range is what TOUGH2 uses SUPST
-    for - the vapour phase up to saturation for every temperature up to the IFC-67 critical temperature; the
-    documentation's "region 2" is loose wording): 0.01..800 degC, p > 0,
+    """Operating range of t2thermo.supst (ruling of the framework owner: the range is what the routine's own
+    bounds logic states, which is how TOUGH2 uses SUPST - the vapour phase up to saturation for every
+    temperature up to the IFC-67 critical temperature; the documentation's "region 2" is loose wording):
+    0.01 <= t <= 800 degC, p > 0, and (all limits closed, the curves being t2thermo's own sat / b23p values)
         p <= sat(t)   for t <= 374.15 degC,
         p <= b23p(t)  for 374.15 < t <= 590 degC,
         p <= 100 MPa  above.
-    Exactly on a curve either answer is accepted; 100 MPa above 590 degC is a stated closed limit.  Where
-    b23p(t) exceeds 100 MPa by rounding of its printed coefficients (t within 1e-6 degC of 590) either answer
-    is accepted between 100 MPa and the curve.  Between the printed 374.15 and the computed 647.3 - 273.15
-    (should they differ in the last bit) either curve may be the one in force."""
+    "Either answer" is kept only where two nominally coincident limits differ by rounding of printed
+    coefficients: between 100 MPa and b23p(t) where the curve exceeds 100 MPa (t within 1e-6 degC of 590),
+    and between the printed 374.15 and the computed 647.3 - 273.15 should they differ in the last bit."""
     if not (T_MIN <= t <= T_MAX) or p <= 0.:
         return set([False])
     if t > T_23_END:
-        return set([p <= P_MAX])            # a stated, closed limit - not a curve
+        return set([p <= P_MAX])
     if t < TCRIT67_LO or (t <= TCRIT67_HI and TCRIT67_LO == TCRIT67_HI):
-        return _side(p, psat) if p <= P_MAX else set([False])
+        return set([p <= psat and p <= P_MAX])
     if t <= TCRIT67_HI:
-        return (_side(p, psat) | _side(p, pb23)) if p <= P_MAX else set([False])
+        return set([p <= psat and p <= P_MAX, p <= pb23 and p <= P_MAX])
     if p > P_MAX:
-        if p <= pb23:
-            return set([True, False])
-        return set([False])
-    return _side(p, pb23)
+        return set([True, False]) if p <= pb23 else set([False])
+    return set([p <= pb23])
 
 
 def sat67_range(t):
